@@ -15,7 +15,8 @@
 From Coq Require Import ZArith List Bool Lia.
 From Low Require Import Lib.MachInt Lib.Bits Lib.BitSeq Model.BitmapJoin Model.LegacyBitmap Spec.JoinSpec
   Proofs.JoinProofs Model.BitmapMask Spec.MaskSpec Model.BitmapGetw32 Spec.GetwSpec Proofs.GetwProofs
-  Model.BitmapOf Model.BitmapSliceArray Spec.SliceArraySpec Proofs.SliceArrayProofs.
+  Model.BitmapOf Model.BitmapSliceArray Spec.SliceArraySpec Proofs.SliceArrayProofs
+  Model.BitmapFmt Spec.FmtSpec Proofs.FmtProofs.
 Import ListNotations.
 Open Scope Z_scope.
 
@@ -123,6 +124,20 @@ Theorem C14_Slice_ToArray : forall ws from to, words_ok ws -> 0 <= from <= to ->
 Proof. exact SliceToArray_correct. Qed.
 Print Assumptions C14_Slice_ToArray.
 
+(** bitmap/fmt.go, the package's printer: Fmt of an integer of any of the 8 integer types prints its
+    8*size binary digits (two's complement), least significant first, in groups of 8 separated by a
+    space; the elements of a slice are separated by commas; a non-integer panics (an empty slice of
+    anything prints as "").  All integers, all slice lengths. *)
+Theorem C14_Fmt : forall kind is_slice vals, Fmt kind is_slice vals = spec_Fmt kind is_slice vals.
+Proof. exact Fmt_correct. Qed.
+Print Assumptions C14_Fmt.
+
+(** a bitmap printed by Fmt shows exactly its bit sequence: the digits of the output are [flat] *)
+Theorem C14_Fmt_bitmap : forall ws,
+  exists s, Fmt 7 true ws = Some s /\ filter is_digit s = map bitchar (flat ws).
+Proof. exact Fmt_bitmap. Qed.
+Print Assumptions C14_Fmt_bitmap.
+
 (** The pre-fix Slice returned ((to-from)+63)&^63 WORDS: 128 for the 69-bit range [1,70). *)
 Theorem C14_slice_len_refuted :
   exists ws from to r, words_ok ws /\ 0 <= from <= to /\ to <= 64 * zlen ws /\
@@ -176,3 +191,14 @@ Example C14_widen_nonvacuous :
   SliceToArray [0xa5; 2^63 + 7] 2 67 = Some [0; 3; 5; 62; 63; 64] /\
   ones (flat [0xa5; 2^63 + 7]) = [0; 2; 5; 7; 64; 65; 66; 127].
 Proof. vm_compute. intuition congruence. Qed.
+
+(** non-vacuity, Fmt: the example of the function's doc comment, int32(0x0102) --> "01000000 10000000 …";
+    a negative int8; a two-word bitmap; the panic *)
+Example C14_Fmt_nonvacuous :
+  Fmt 4 false [0x0102] = Some [48;49;48;48;48;48;48;48; 32; 49;48;48;48;48;48;48;48; 32;
+                               48;48;48;48;48;48;48;48; 32; 48;48;48;48;48;48;48;48] /\
+  Fmt 0 false [-2] = Some [48;49;49;49;49;49;49;49] /\
+  Fmt 1 true [1; 128] = Some [49;48;48;48;48;48;48;48; 44; 48;48;48;48;48;48;48;49] /\
+  Fmt 8 false [7] = None /\ Fmt 8 true [] = Some [] /\
+  (exists s, Fmt 7 true [5; 2^63] = Some s /\ length s = 143%nat).
+Proof. vm_compute. intuition (try congruence). eexists. split; reflexivity. Qed.
